@@ -108,6 +108,9 @@ def decoded_lines(data: bytes):
 def scan_request(data: bytes, fname="x.py", ignore_nosec=False, plugin_cfg=None, select=None, stdin=False):
     req = {"op": "scan", "tree": astser.ser_source(data), "comments": comments_of(data),
            "ignore_nosec": ignore_nosec, "fname": fname, "stdin": stdin}
+    dl = decoded_lines(data)
+    if dl is not None:
+        req["lines"] = dl
     if plugin_cfg:
         req["plugin_cfg"] = plugin_cfg
     if select is not None:
